@@ -26,6 +26,8 @@ type Bundle struct {
 	Packages []string // listing order as returned to the compiler
 	// ListOrder optionally fixes the order ListSourceFiles returns (default sorted)
 	ListOrder []string
+	// Deps: external dependency files (path -> descriptor) offered to the compiler
+	Deps map[string]*descriptorpb.FileDescriptorProto
 }
 
 func NewBundle() *Bundle { return &Bundle{Files: map[string]string{}} }
@@ -83,7 +85,30 @@ func Silence() {
 	stdlog.SetOutput(io.Discard)
 }
 
+type mapDeps map[string]*descriptorpb.FileDescriptorProto
+
+func (m mapDeps) ListDependencyFiles(root string) []string {
+	var out []string
+	for k := range m {
+		if strings.HasPrefix(k, root+"/") && !strings.Contains(k[len(root)+1:], "/") {
+			out = append(out, k)
+		}
+	}
+	sort.Strings(out)
+	return out
+}
+
+func (m mapDeps) GetDependencyFile(name string) (*descriptorpb.FileDescriptorProto, error) {
+	if f, ok := m[name]; ok {
+		return f, nil
+	}
+	return nil, fmt.Errorf("no dependency file %s", name)
+}
+
 func (b *Bundle) NewPackageSet() (*protobuild.PackageSet, error) {
+	if b.Deps != nil {
+		return protobuild.NewPackageSet(mapDeps(b.Deps), b)
+	}
 	return protobuild.NewPackageSet(noDeps{}, b)
 }
 
